@@ -1,13 +1,260 @@
 //! C17 (validate_merge) and C18 (reset_remove) probes.
 
-use crate::engine::{Res, World};
+use crate::engine::{guard, pending_table, Res, World, UNIV};
+use crate::model::{self, AInfo, Leaf};
 use crate::sut::Sut;
 use crate::types::*;
 
-pub fn validate_merge_probe<S: Sut>(_w: &mut World<S>, _a: &StateRef, _b: &StateRef) -> Res {
-    Ok(false)
+fn fail<T>(step: usize, clause: &str, detail: String) -> Result<T, Failure> {
+    Err(Failure { clause: clause.to_string(), step, detail })
 }
 
-pub fn reset_probe<S: Sut>(_w: &mut World<S>, _node: usize, _c1: &ClockSrc, _c2: &ClockSrc) -> Res {
-    Ok(false)
+/// By the public reads of two states: is some dot the current witness of one member / key in one state
+/// and of a different one in the other? Returns a description of the first clash found.
+fn double_spend(a: &DObs, b: &DObs, path: &str) -> Option<String> {
+    match (a, b) {
+        (DObs::Set(x), DObs::Set(y)) => {
+            for (m1, c1) in x {
+                for (m2, c2) in y {
+                    if m1 != m2 {
+                        for (actor, n) in c1 {
+                            if clk_get(c2, *actor) == *n {
+                                return Some(format!("{}dot ({},{}) witnesses member {} on one side and member {} on the other", path, actor, n, m1, m2));
+                            }
+                        }
+                    }
+                }
+            }
+            None
+        }
+        (DObs::Map(x), DObs::Map(y)) => {
+            for (k1, (c1, v1)) in x {
+                for (k2, (c2, v2)) in y {
+                    if k1 != k2 {
+                        for (actor, n) in c1 {
+                            if clk_get(c2, *actor) == *n {
+                                return Some(format!("{}dot ({},{}) witnesses key {} on one side and key {} on the other", path, actor, n, k1, k2));
+                            }
+                        }
+                    } else if let Some(d) = double_spend(v1, v2, &format!("{}nested under key {}: ", path, k1)) {
+                        return Some(d);
+                    }
+                }
+            }
+            None
+        }
+        _ => None,
+    }
+}
+
+pub fn validate_merge_probe<S: Sut>(w: &mut World<S>, a: &StateRef, b: &StateRef) -> Res {
+    if !S::can_merge() {
+        return Ok(false);
+    }
+    let (sa, _ka) = match w.state_of(a) {
+        Some((s, k)) => (s?, k),
+        None => return Ok(false),
+    };
+    let (sb, _kb) = match w.state_of(b) {
+        Some((s, k)) => (s?, k),
+        None => return Ok(false),
+    };
+    w.stats.probe_cases += 1;
+    let what = format!("{:?} and {:?}", a, b);
+    let v1 = guard(|| sa.validate_merge(&sb));
+    let v2 = guard(|| sb.validate_merge(&sa));
+    let (v1, v2) = match (v1, v2) {
+        (Ok(x), Ok(y)) => (x, y),
+        (Err(p), _) | (_, Err(p)) => return fail(w.step, "vmerge.correct", format!("{}: validate_merge panicked: {}", what, p)),
+    };
+    let ok1 = matches!(v1, Verdict::Ok);
+    let ok2 = matches!(v2, Verdict::Ok);
+    if w.cfg.on("vmerge.sym") && ok1 != ok2 {
+        return fail(w.step, "vmerge.sym", format!("{}: a.validate_merge(b) = {} but b.validate_merge(a) = {}\n  a: {}\n  b: {}", what, v1.show(), v2.show(), dq(sa.dbg()), dq(sb.dbg())));
+    }
+    if !w.cfg.misuse {
+        if w.cfg.on("vmerge.correct") && !(ok1 && ok2) {
+            return fail(
+                w.step,
+                "vmerge.correct",
+                format!("{}: validate_merge = {} / {} although every actor was confined to one replica\n  a: {}\n  b: {}", what, v1.show(), v2.show(), dq(sa.dbg()), dq(sb.dbg())),
+            );
+        }
+        return Ok(true);
+    }
+    // misuse configuration: a re-spent dot that is a current witness on both sides must be flagged
+    if w.cfg.on("vmerge.misuse") {
+        let (oa, ob) = match (guard(|| sa.obs()), guard(|| sb.obs())) {
+            (Ok(x), Ok(y)) => (x, y),
+            _ => return Ok(true),
+        };
+        let clash = match (&oa, &ob) {
+            (Obs::Dotted { body: x, .. }, Obs::Dotted { body: y, .. }) => double_spend(x, y, ""),
+            (Obs::Lww { val: v1, marker: m1 }, Obs::Lww { val: v2, marker: m2 }) => {
+                if m1 == m2 && v1 != v2 {
+                    Some(format!("marker {:?} carries value {} on one side and {} on the other", m1, v1, v2))
+                } else {
+                    None
+                }
+            }
+            _ => None,
+        };
+        if let Some(c) = clash {
+            if ok1 || ok2 {
+                return fail(
+                    w.step,
+                    "vmerge.misuse",
+                    format!("{}: {} but validate_merge = {} / {}\n  a: {}\n  b: {}", what, c, v1.show(), v2.show(), oa.show(), ob.show()),
+                );
+            }
+        }
+    }
+    Ok(true)
+}
+
+fn resolve_clock<S: Sut>(w: &World<S>, c: &ClockSrc) -> Option<Clk> {
+    match c {
+        ClockSrc::Empty => Some(Clk::new()),
+        ClockSrc::NodeClock(n) => {
+            let k = w.nodes.get(*n)?.k;
+            match model::expect(&w.family, &w.aops, k, UNIV) {
+                Some(Obs::Dotted { add, .. }) => Some(add),
+                Some(Obs::Clock(c)) => Some(c),
+                _ => Some(model::clock_of(&w.aops, k)),
+            }
+        }
+        ClockSrc::OpCtx(tag) => {
+            let ix = *w.tag_ix.get(tag)?;
+            let o = &w.aops[ix];
+            match &o.info {
+                AInfo::Dotted { leaf: Leaf::SetRm { ctx, .. }, .. } | AInfo::Dotted { leaf: Leaf::KeyRm { ctx, .. }, .. } => Some(ctx.clone()),
+                _ => {
+                    let mut c = model::clock_of(&w.aops, o.k_read);
+                    if let Some(n) = o.dot {
+                        clk_bump(&mut c, o.author, n);
+                    }
+                    Some(c)
+                }
+            }
+        }
+        ClockSrc::OpGen(tag) => {
+            let ix = *w.tag_ix.get(tag)?;
+            Some(model::clock_of(&w.aops, w.aops[ix].k_gen))
+        }
+    }
+}
+
+fn do_reset<S: Sut>(w: &World<S>, s: &S, c: &Clk, clause: &str) -> Result<S, Failure> {
+    let mut x = s.clone();
+    match guard(move || {
+        x.reset_remove(c);
+        x
+    }) {
+        Ok(x) => Ok(x),
+        Err(p) => fail(w.step, clause, format!("reset_remove({:?}) panicked: {}", c, p)),
+    }
+}
+
+fn obs<S: Sut>(w: &World<S>, s: &S, clause: &str) -> Result<Obs, Failure> {
+    match guard(|| s.obs()) {
+        Ok(o) => Ok(o),
+        Err(p) => fail(w.step, clause, format!("reading after reset_remove panicked: {}", p)),
+    }
+}
+
+/// structural comparison of two states: reads, contexts and pending-remove tables (not `==`, which
+/// for MVReg may panic on states that reset_remove can produce)
+fn same_structure<S: Sut>(w: &World<S>, a: &S, b: &S, clause: &str, what: &str) -> Result<(), Failure> {
+    let (oa, ob) = (obs(w, a, clause)?, obs(w, b, clause)?);
+    if oa != ob {
+        return fail(w.step, clause, format!("{}\n  left : {}\n  right: {}", what, oa.show(), ob.show()));
+    }
+    if matches!(w.family, Family::Dotted(Shape::Set) | Family::Dotted(Shape::Map(_))) {
+        let (pa, pb) = (pending_table(&a.dbg()), pending_table(&b.dbg()));
+        if pa != pb {
+            return fail(w.step, clause, format!("{} (pending removes)\n  left : {:?}\n  right: {:?}", what, pa, pb));
+        }
+    }
+    Ok(())
+}
+
+pub fn reset_probe<S: Sut>(w: &mut World<S>, node: usize, c1: &ClockSrc, c2: &ClockSrc) -> Res {
+    if !S::can_reset() || !w.up(node) {
+        return Ok(false);
+    }
+    let (c1, c2) = match (resolve_clock(w, c1), resolve_clock(w, c2)) {
+        (Some(a), Some(b)) => (a, b),
+        _ => return Ok(false),
+    };
+    let k = w.nodes[node].k;
+    let st = w.nodes[node].state.clone().unwrap();
+    w.stats.probe_cases += 1;
+    let o0 = obs(w, &st, "reset")?;
+    // 1. exactly what c covers is forgotten
+    let r1 = do_reset(w, &st, &c1, "reset")?;
+    let o1 = obs(w, &r1, "reset")?;
+    // the absolute comparison is made only on replicas that read as the model says before the reset, so
+    // that this oracle judges reset_remove and not whatever went wrong earlier
+    let before_ok = model::expect(&w.family, &w.aops, k, UNIV).map_or(true, |e| e == o0);
+    let pend_before_ok = !matches!(w.family, Family::Dotted(Shape::Set) | Family::Dotted(Shape::Map(_))) || pending_table(&st.dbg()) == Some(model::pending(&w.aops, k));
+    if let (true, Some(exp)) = (before_ok, model::expect_after_reset(&w.family, &w.aops, k, &c1, UNIV)) {
+        if o1 != exp {
+            return fail(
+                w.step,
+                "reset",
+                format!("node {} K={:x}: after reset_remove({:?})\n  before: {}\n  impl  : {}\n  model : {}", node, k, c1, o0.show(), o1.show(), exp.show()),
+            );
+        }
+    }
+    if before_ok && pend_before_ok && matches!(w.family, Family::Dotted(Shape::Set) | Family::Dotted(Shape::Map(_))) {
+        let exp = model::pending_after_reset(&model::pending(&w.aops, k), &c1);
+        match pending_table(&r1.dbg()) {
+            Some(t) if t == exp => {}
+            t => {
+                return fail(
+                    w.step,
+                    "reset",
+                    format!("node {} K={:x}: after reset_remove({:?}) the pending removes are {:?}, expected {:?}", node, k, c1, t, exp),
+                )
+            }
+        }
+    }
+    // 2. the empty clock changes nothing; the replica's own full clock empties it
+    let r0 = do_reset(w, &st, &Clk::new(), "reset")?;
+    same_structure(w, &r0, &st, "reset", &format!("node {}: reset_remove(empty clock) changed the replica", node))?;
+    let own = match &o0 {
+        Obs::Dotted { add, .. } => Some(add.clone()),
+        Obs::Clock(c) => Some(c.clone()),
+        _ => None,
+    };
+    if let Some(own) = own {
+        let re = do_reset(w, &st, &own, "reset")?;
+        let oe = obs(w, &re, "reset")?;
+        let empty = match &oe {
+            Obs::Dotted { add, body, .. } => {
+                add.is_empty()
+                    && match body {
+                        DObs::Set(m) => m.is_empty(),
+                        DObs::Reg(v) => v.is_empty(),
+                        DObs::Map(m) => m.is_empty(),
+                    }
+            }
+            Obs::Clock(c) => c.is_empty(),
+            _ => true,
+        };
+        if !empty {
+            return fail(w.step, "reset", format!("node {}: reset_remove(own clock {:?}) leaves {}", node, own, oe.show()));
+        }
+    }
+    // 3. c1 then c2 equals their join; repeating is a no-op
+    if w.cfg.on("reset.join") {
+        let r12 = do_reset(w, &r1, &c2, "reset.join")?;
+        let rj = do_reset(w, &st, &clk_join(&c1, &c2), "reset.join")?;
+        same_structure(w, &r12, &rj, "reset.join", &format!("node {}: reset_remove({:?}) then reset_remove({:?}) differs from reset_remove of their join", node, c1, c2))?;
+    }
+    if w.cfg.on("reset.idem") {
+        let r11 = do_reset(w, &r1, &c1, "reset.idem")?;
+        same_structure(w, &r11, &r1, "reset.idem", &format!("node {}: repeating reset_remove({:?}) changes the replica", node, c1))?;
+    }
+    Ok(true)
 }
